@@ -239,6 +239,8 @@ def run_mixed_shard(pid, params, rec, extra_kinds=None):
                     sched = "new_ltf"
             if extra is None and i % 8 == 0:
                 extra = {"scheduler_as_callable": True}
+            if rng.random() < 0.3:
+                extra = dict(extra or {}, verbose=True)     # progress logging must never fail
             run_analyzer(pid, rec, cfg, sched, extra)
         if i % 6 == 1 and "fs_form" not in cfg:
             run_after_consumer(pid, rec, cfg, gen.SCHEDS[(i // 6) % 4],
